@@ -4,7 +4,7 @@ import fw
 from fw import Corr, Failure, cz, cbool, clist, copt
 
 TITLE = 'Bus, buffer and node-id allocation is safe and complete'
-TRANSLATED = ['Gen_builtins']          # NodeId.wrap_int is proved equal to the regenerated py_wrap on ints
+TRANSLATED = ['Gen_builtins']          # props/C16.v evaluates the regenerated py_wrap at the node-id wrap boundary (Example)
 MODEL_TARGETS = ['model/Alloc.vo', 'model/NodeId.vo']
 ALLOWED_AXIOMS = []
 TRUSTED = [
@@ -52,7 +52,7 @@ def gen_case(rng, malformed=False):
 
 
 def coq_ops(ops):
-    return clist(['OAlloc %s %s' % (cz(o[1]), cz(o[2] if o[2] is not None else 0)) if o[0] == 'a' else 'OFree %s' % cz(o[1]) for o in ops])
+    return '(%s : list op)' % clist(['OAlloc %s %s' % (cz(o[1]), cz(o[2] if o[2] is not None else 0)) if o[0] == 'a' else 'OFree %s' % cz(o[1]) for o in ops])
 
 
 def coq_entry(e):
@@ -62,6 +62,10 @@ def coq_entry(e):
     cells = clist(['(%s, (%s, %s, %s))' % (cz(c[0]), cz(c[1]), cz(c[2]), cbool(c[3])) for c in e[3]])
     freed = clist(['(%s, %s)' % (cz(k), clist([cz(x) for x in s])) for k, s in e[4]])
     return '(%s, %s, (%s, %s, %s))' % (cz(code), cz(e[1]), cz(e[2]), cells, freed)
+
+
+def coq_entries(es):
+    return '(%s : list entry)' % clist([coq_entry(e) for e in es])
 
 
 def concrete(ops, entries):
@@ -109,15 +113,15 @@ def correspond(ctx):
         if cut < len(cops_all) or init_failed:
             c.count('outside-alphabet:' + ('constructor' if init_failed else 'alloc n<1' if cops_all[cut][0] == 'a' else 'free outside partition'))
             informal.append('((%s, %s, %s), %s, %s)' % (cz(case['size']), cz(case['pos']), cz(case['off']), coq_ops(cops_all),
-                                                      clist([coq_entry(e) for e in entries])))
+                                                      coq_entries(entries)))
         if init_failed:
             cut = 0
             entries = []
         cops, entries = cops_all[:cut], entries[:cut]
         conc.append({'size': case['size'], 'pos': case['pos'], 'off': case['off'], 'ops': cops})
         items.append('((%s, %s, %s), %s, %s)' % (cz(case['size']), cz(case['pos']), cz(case['off']), coq_ops(cops),
-                                                clist([coq_entry(e) for e in entries])) if not init_failed else
-                     '((4, 0, 0), [], [])')
+                                                coq_entries(entries)) if not init_failed else
+                     '((4%Z, 0%Z, 0%Z), ([] : list op), ([] : list entry))')
         # distribution / non-triviality
         c.count('offset:' + ('zero' if case['off'] == 0 else 'nonzero'))
         c.count('reserved:%d' % min(case['pos'], 4))
@@ -246,7 +250,7 @@ def correspond(ctx):
             sz, p, off = sr['params'][which]
             sitems.append('((%s, %s, %s, %s, %s), (%s, %s, %s), %s, %s)' % (
                 cz(total), cz(ioff), cz(o['max_logins']), cz(resv), cz(sc['client']), cz(sz), cz(p), cz(off),
-                coq_ops(cops), clist([coq_entry(e) for e in ents])))
+                coq_ops(cops), coq_entries(ents)))
             sinfo.append((sc, which, {'size': sz, 'pos': p, 'off': off, 'ops': cops}))
             c.evaluations += len(cops)
             c.count('server:%s-ops' % which, len(cops))
@@ -297,6 +301,33 @@ def search(ctx, failures):
     res = ctx.impl('c16_search', {'seed': ctx.seed, 'count': ctx.n(4000, 40000), 'corpus': corpus})
     found = []
     seen = set()
+    # partitions the Server builds for the client ids of one server must be pairwise disjoint and inside the index space
+    try:
+        optsets = [{'max_logins': 4, 'input_channels': 2, 'output_channels': 2, 'audio_buses': 68, 'control_buses': 40, 'buffers': 32,
+                    'reserved_audio_buses': 1, 'reserved_control_buses': 0, 'reserved_buffers': 2},
+                   {'max_logins': 3, 'input_channels': 0, 'output_channels': 2, 'audio_buses': 50, 'control_buses': 31, 'buffers': 10,
+                    'reserved_audio_buses': 0, 'reserved_control_buses': 1, 'reserved_buffers': 0}]
+        scases = [{'opts': o, 'client': k, 'ops': []} for o in optsets for k in range(o['max_logins'])]
+        sres = ctx.impl('c16_server', {'cases': scases})['cases']
+        for o in optsets:
+            rows = [(sc['client'], sr['params']) for sc, sr in zip(scases, sres) if sc['opts'] is o and 'params' in sr]
+            tot = {'audio': (o['input_channels'] + o['output_channels'], o['audio_buses']), 'control': (0, o['control_buses']), 'buffer': (0, o['buffers'])}
+            for which in ('audio', 'control', 'buffer'):
+                rng = sorted((p[which][2], p[which][2] + p[which][0], k) for k, p in rows)
+                why = None
+                for (a0, a1, k0), (b0, b1, k1) in zip(rng, rng[1:]):
+                    if b0 < a1:
+                        why = '%s partitions of clients %d and %d overlap: [%d,%d) and [%d,%d)' % (which, k0, k1, a0, a1, b0, b1)
+                if rng and (rng[0][0] < tot[which][0] or rng[-1][1] > tot[which][1]):
+                    why = '%s partitions %s leave the index space [%d,%d)' % (which, [(a, b) for a, b, _ in rng], tot[which][0], tot[which][1])
+                if why and 'C16:partitions' not in seen:
+                    seen.add('C16:partitions')
+                    found.append(Failure('search', 'Server options %s: %s' % (o, why), signature='C16:partitions-overlap',
+                                         replay={'options': o, 'allocator': which, 'why': why,
+                                                 'replay_cmd': "sc3.init('nrt'); s.options.<fields> = ...; s._set_client_id(k); compare s._%s allocator .addr_offset/.size for all k" % which},
+                                         found_input=True, theorem='partitions_disjoint'))
+    except fw.ImplError as e:
+        fw.log('partition search failed: %s' % e)
     for b in res['found']:
         if 'node' in b:
             found.append(Failure('search', 'node ids on the implementation: ' + b['why'], signature='C16:nodeid', replay=b,
